@@ -61,4 +61,58 @@ theorem drop_flushed (l : List (α × Bool)) (n : Nat) (h : ∀ x ∈ l.take n, 
   · rw [e, List.map_append, List.drop_left' (by simp [hn])]
   · rw [e, List.map_append, List.take_left' (by simp [hn])]
 
+/-- on a `readOK` queue the leading flushed bytes are all the flushed bytes -/
+theorem takeWhile_eq_filter_of_readOK (l : List (α × Bool)) (h : (l.dropWhile (·.2)).all (! ·.2) = true) :
+    l.takeWhile (·.2) = l.filter (·.2) := by
+  induction l with
+  | nil => rfl
+  | cons x xs ih =>
+    cases hx : x.2 with
+    | true =>
+      simp only [List.dropWhile_cons, hx, if_true] at h
+      simp [hx, ih h]
+    | false =>
+      simp only [List.dropWhile_cons, hx] at h
+      have hall : ∀ y ∈ x :: xs, y.2 = false := by simpa using h
+      have : (x :: xs).filter (·.2) = [] := by
+        apply List.filter_eq_nil_iff.2
+        intro y hy; simp [hall y hy]
+      rw [this]; simp [hx]
+
+theorem Q.leadBytes_eq_flushedBytes (q : Q α) (h : q.readOK = true) : q.leadBytes = q.flushedBytes := by
+  simp only [Q.leadBytes, Q.flushedBytes]
+  rw [takeWhile_eq_filter_of_readOK q.items h]
+
+/-- appending entries keeps the leading flushed entries as a prefix -/
+theorem takeWhile_prefix_append (l l' : List (α × Bool)) :
+    l.takeWhile (·.2) <+: (l ++ l').takeWhile (·.2) := by
+  induction l with
+  | nil => simp
+  | cons x xs ih =>
+    cases hx : x.2 with
+    | true =>
+      simp only [List.cons_append, List.takeWhile_cons, hx, if_true]
+      exact List.prefix_cons_inj x |>.2 ih
+    | false => simp [hx]
+
+theorem leadBytes_prefix_append (q : Q α) (l' : List (α × Bool)) (c : List α) (h : c <+: q.leadBytes) :
+    c <+: ((q.items ++ l').takeWhile (·.2)).map (·.1) :=
+  List.IsPrefix.trans h (List.IsPrefix.map _ (takeWhile_prefix_append q.items l'))
+
+/-- marking everything flushed keeps the leading flushed bytes as a prefix -/
+theorem leadBytes_prefix_all (q : Q α) (c : List α) (h : c <+: q.leadBytes) :
+    c <+: ((q.items.map fun x => (x.1, true)).takeWhile (·.2)).map (·.1) := by
+  have e : (q.items.map fun x => (x.1, true)).takeWhile (·.2) = q.items.map fun x => (x.1, true) := by
+    generalize q.items = l
+    induction l with
+    | nil => rfl
+    | cons x xs ih => simp [ih]
+  rw [e, List.map_map]
+  have : (q.items.map ((fun x => x.1) ∘ fun x => (x.1, true))) = q.items.map (·.1) := by
+    apply List.map_congr_left; intro a _; rfl
+  rw [this]
+  refine List.IsPrefix.trans h ?_
+  simp only [Q.leadBytes]
+  exact List.IsPrefix.map _ (List.takeWhile_prefix _)
+
 end Netpoll.Buf
